@@ -452,8 +452,8 @@ pub fn spec(id: &str) -> Option<Spec> {
             ],
             subs: {
                 let run: RunFn = Arc::new(|c: &Case| run_c01(c));
-                let mut a = gen_sub("gen-stream", c01_decode_stream(), run.clone(), (160_000, 6_000_000), 700);
-                let mut b = gen_sub("gen-api", c01_decode_api(), run.clone(), (160_000, 6_000_000), 700);
+                let mut a = gen_sub("gen-stream", c01_decode_stream(), run.clone(), (160_000, 3_000_000), 700);
+                let mut b = gen_sub("gen-api", c01_decode_api(), run.clone(), (160_000, 3_000_000), 700);
                 // replays (and crash attribution) run the case alone in a child process, so
                 // that aborts, stack overflows, hangs and deadlocks are verdicts too
                 let mut c = gen_sub("gen-big-feeds", big_decode(false), run.clone(), (320, 12_000), 200);
